@@ -430,7 +430,7 @@ Factory(b, k) ==     \* b: failing from now on; k: ... after k more successful c
   /\ Commit([BaseEv("factory") EXCEPT !.fail = b], [op |-> "factory", fail |-> b, after |-> k])
   /\ UNCHANGED <<nconn, scst, scref, refr, slots, affm, fbm, cnt, gst, pubs, calls, addrs, cfgd, ecfg, meth, rrid, pend>>
 
-KeySeqs == {<<>>} \cup {<<k>> : k \in Keys} \cup {<<k1, k2>> : k1 \in Keys, k2 \in Keys}
+KeySeqs == {<<>>} \cup {<<k>> : k \in Keys} \cup {s2 \in {<<k1, k2>> : k1 \in Keys, k2 \in Keys} : s2[1] # s2[2]}
 ReqShapes == IF UseBadReq THEN {"", "nil"} ELSE {""}
 
 \* a blocked pick that has returned is delivered before anything else happens (the harness does the same)
@@ -448,7 +448,10 @@ Preambles == <<
   <<PR(1), PS(1, "READY"), PP("BIND", <<>>, 0), PD(1, "OK", <<1>>)>>,                         \* 3: one channel, key 1 bound
   <<PR(1), PS(1, "READY"), PS(2, "READY"), PP("BIND", <<>>, 0), PD(1, "OK", <<1>>)>>,         \* 4: two channels, key 1 bound
   <<PR(1), PS(1, "READY"), PS(2, "READY"), PS(3, "READY")>>,                                  \* 5: three READY channels (minSize >= 3)
-  <<PR(1), PS(1, "READY"), PP("PLAIN", <<>>, 1), PA(3), PD(1, "CDE", <<>>)>>                  \* 6: one channel with a refresh in flight (uc = 1)
+  <<PR(1), PS(1, "READY"), PP("PLAIN", <<>>, 1), PA(3), PD(1, "CDE", <<>>)>>,                 \* 6: one channel with a refresh in flight (uc = 1)
+  <<PR(1), PS(1, "READY"), PS(2, "READY"), PP("BIND", <<>>, 0), PD(1, "OK", <<1>>), PS(1, "TF"), PP("BOUND", <<1>>, 0)>>,  \* 7: key 1 bound, channel 1 down, a keyed call placed (fallback when channel 1 is the home)
+  <<PR(1), PS(1, "READY"), PS(2, "READY"), PP("BIND", <<>>, 0), PD(1, "OK", <<1>>), PS(1, "TF"), PP("BOUND", <<1>>, 0),
+    PP("UNBIND", <<1>>, 0), PD(3, "OK", <<>>)>>                                                  \* 8: ... and the key unbound again while channel 1 is still down
 >>
 PreSeq == IF Pre = 0 THEN <<>> ELSE Preambles[Pre]
 
